@@ -108,7 +108,7 @@ fn shapes(thorough: bool, seed: u64) -> Vec<Shape> {
     // seeded random shapes (those the real prover refuses are skipped by the caller)
     use rand::RngExt;
     let mut rng = SmallRng::seed_from_u64(seed.wrapping_mul(31).wrapping_add(7));
-    let n_random = if thorough { 40 } else { 6 };
+    let n_random = if thorough { 160 } else { 6 };
     for k in 0..n_random {
         let log_blowup = rng.random_range(1..=2usize);
         let log_final_poly_len = rng.random_range(0..=1usize);
@@ -519,6 +519,12 @@ fn main() {
             if !honest.native_ok || !honest.circuit_ok {
                 sh.bump("c07.violations_confirmed");
                 let role = if honest.native_ok { "circuit-rejects-honest" } else if honest.circuit_ok { "native-rejects-honest-at-symbolic-field" } else { "both-reject-honest" };
+                // a refusal at circuit-build time is keyed by the refusing site's message, so that a
+                // recorded finding covers that one guard only
+                let role = match (honest.native_ok, honest.circuit_err.strip_prefix("circuit build: ")) {
+                    (true, Some(rest)) => format!("{role}:build:{}", rest.split('"').nth(1).unwrap_or(rest)),
+                    _ => role.to_string(),
+                };
                 violations.push(json!({"property": "C07", "kind": "honest-proof-disagreement", "signature": format!("C07/{role}"),
                     "detail": format!("native ok={} ({}) circuit ok={} ({})", honest.native_ok, honest.native_err, honest.circuit_ok, honest.circuit_err), "program_text": label, "confirmed_by_native_replay": true}));
                 continue;
